@@ -1,5 +1,6 @@
 """C13 - columns may come and go; the catalogue lists each once (narrow claim)."""
 from rules import misc as M
+from rules import operators as OP
 
 
 def run(ctx):
@@ -10,6 +11,7 @@ def run(ctx):
     ctx.run(M.flw21_catalogue_sees_every_key)
     ctx.run(M.lit2_catalogue_literals)
     ctx.run(M.flw2_compaction_covers_names)
+    ctx.run(OP.pan5_result_type_lattice_total)
     return ctx.finish(
         'Static rules: catalogue rows are added to the event buffer before it is cloned for the '
         'write-ahead segment; the three ingestion siblings record every incoming name under both '
